@@ -344,6 +344,10 @@ func init() {
 	}
 	intercepts["math/rand.Intn"] = func(ex *Exec, fr *Frame, a []Value, s ssa.Instruction) Value {
 		n := a[0].(*Term)
+		if nv, ok := n.BVVal(); ok && nv > 0 && nv <= 8 {
+			// small concrete range: every value is explored
+			return ex.tt.BV(uint64(ex.choose(int(nv), nil, "rand.Intn")), 64)
+		}
 		r := ex.input("rand.Intn", "int", SBV64)
 		ex.addPC(ex.tt.And(ex.tt.SLe(ex.tt.BV(0, 64), r), ex.tt.SLt(r, n)))
 		return r
